@@ -25,4 +25,13 @@ def main(argv=None):
 
 
 if __name__ == '__main__':
-    sys.exit(main())
+    try:
+        rc = main()
+    except SystemExit:
+        raise
+    except BaseException as e:      # noqa - a crash of the machinery is never a verdict on the code
+        import traceback
+        traceback.print_exc()
+        print(f'INCONCLUSIVE reason=verification machinery failed: {e!r}')
+        rc = 2
+    sys.exit(rc)
